@@ -1066,3 +1066,100 @@ Proof.
   - apply invA_init.
   - intros; eapply invA_step; eassumption.
 Qed.
+
+(* ---- group D: with the event sent inside the per-publisher sync lock (fx = true),
+        a publisher's events are sent in the order in which its syncs completed ---- *)
+
+Definition pending_pc (p : pc) : bool := match p with PSetLatest | PSend | PSendErr => true | _ => false end.
+
+(* the sync of publisher p that has completed but not yet sent its event (it holds the lock) *)
+Definition pend (p : N) (s : st) : list nat :=
+  match sync_mu s p with
+  | Some t =>
+    match threads s t with
+    | Some th => if pending_pc (t_pc th) && N.eqb (k_pub (t_kind th)) p then [t] else []
+    | None => []
+    end
+  | None => []
+  end.
+
+Definition InvD (s : st) : Prop := forall p, done_of p s = sent_of p s ++ pend p s.
+
+Lemma invD_init : InvD init.
+Proof. intro p. reflexivity. Qed.
+
+Lemma holds_eq m t : holds m t = true -> m = Some t.
+Proof. unfold holds. destruct m; [|discriminate]. intro H. apply Nat.eqb_eq in H. congruence. Qed.
+
+(* pend depends on the lock map and, for the holder only, on (pending_pc, publisher) *)
+Lemma pend_frame s s' t th th' p :
+  sync_mu s' = sync_mu s -> threads s t = Some th -> threads s' = updt (threads s) t th' ->
+  pending_pc (t_pc th') = pending_pc (t_pc th) -> t_kind th' = t_kind th ->
+  pend p s' = pend p s.
+Proof.
+  intros Hm Hth Ht Hp Hk. unfold pend. rewrite Hm, Ht.
+  destruct (sync_mu s p) as [t1|]; [|reflexivity].
+  destruct (Nat.eq_dec t1 t) as [->|Hne].
+  - rewrite updt_same, Hth, Hp, Hk. reflexivity.
+  - rewrite updt_other by assumption. reflexivity.
+Qed.
+
+Lemma done_of_unchanged p s s' : done_log s' = done_log s -> done_of p s' = done_of p s.
+Proof. unfold done_of. intros ->. reflexivity. Qed.
+Lemma sent_of_unchanged p s s' : sent_log s' = sent_log s -> sent_of p s' = sent_of p s.
+Proof. unfold sent_of. intros ->. reflexivity. Qed.
+
+Lemma done_of_app p s s' q t a b :
+  done_log s' = done_log s ++ [(q, t, a, b)] ->
+  done_of p s' = done_of p s ++ (if b && N.eqb q p then [t] else []).
+Proof.
+  unfold done_of. intros ->. rewrite filter_app, map_app. cbn. destruct (b && N.eqb q p); reflexivity.
+Qed.
+Lemma sent_of_app p s s' e :
+  sent_log s' = sent_log s ++ [e] ->
+  sent_of p s' = sent_of p s ++ (if N.eqb (e_pub e) p then [e_sid e] else []).
+Proof.
+  unfold sent_of. intros ->. rewrite filter_app, map_app. cbn. destruct (N.eqb (e_pub e) p); reflexivity.
+Qed.
+
+Ltac frameD D Hth :=
+  let p0 := fresh "p0" in
+  match goal with
+  | |- InvD ?s' =>
+    match type of Hth with
+    | threads ?s _ = _ =>
+      intro p0; rewrite (done_of_unchanged p0 s s' eq_refl), (sent_of_unchanged p0 s s' eq_refl);
+      rewrite (D p0); f_equal;
+      eapply pend_frame; [reflexivity|exact Hth|reflexivity| |reflexivity]
+    end
+  end.
+
+Lemma invD_step s l s' : InvB s -> InvA true s -> InvD s -> stepf true s l = Some s' -> InvD s'.
+Proof.
+  intros (B1 & B2 & B3 & B4 & B5 & B6 & B7) A D H.
+  step_inv H; ssimp.
+  all: try (frameD D Hth; ssimp; rewrite Hpc; reflexivity).
+  - (* Spawn *)
+    match goal with |- InvD ?s' => intro p0; rewrite (done_of_unchanged p0 s s' eq_refl), (sent_of_unchanged p0 s s' eq_refl), (D p0) end. f_equal.
+    unfold pend; ssimp. destruct (sync_mu s p0) as [t1|]; [|reflexivity].
+    destruct (Nat.eq_dec t1 (next_tid s)) as [->|Hne].
+    + rewrite updt_same. destruct (threads s (next_tid s)) eqn:Hn; [specialize (B6 _ _ Hn); lia|].
+      destruct k; [destruct (exp_closed s)|]; reflexivity.
+    + rewrite updt_other by assumption. reflexivity.
+  - admit.
+  - admit.
+  - admit.
+  - admit.
+  - admit.
+  - admit.
+  - admit.
+  - admit.
+  - admit.
+  - admit.
+  - admit.
+  - admit.
+  - admit.
+  - admit.
+  - admit.
+  - admit.
+Abort.
